@@ -73,6 +73,7 @@ func alertCreate(op *plan.Op) (interface{}, error) {
 	if err != nil || st != 200 {
 		return nil, fmt.Errorf("create alert: status %d %v err %v", st, resp, err)
 	}
+	settleCron()
 	return map[string]interface{}{"contact_id": cid}, nil
 }
 
@@ -95,13 +96,5 @@ func alertState(op *plan.Op) (interface{}, error) {
 	}
 	id, _ := found["alert_id"].(string)
 	hist, _, _ := httpJSON("query", "GET", "/api/alerts/"+id+"/history?sort_order=ASC&limit=1000", nil)
-	return map[string]interface{}{"exists": true, "state": found["state"], "num_evaluations": found["num_evaluations_count"], "history": hist["alertHistory"], "history_raw_keys": keysOfMap(hist)}, nil
-}
-
-func keysOfMap(m map[string]interface{}) []string {
-	var out []string
-	for k := range m {
-		out = append(out, k)
-	}
-	return out
+	return map[string]interface{}{"exists": true, "state": found["state"], "num_evaluations": found["num_evaluations_count"], "history": hist["alertHistory"]}, nil
 }
